@@ -23,7 +23,12 @@ Inductive case :=
 | CServeT (c : config) (now_lo now_hi : Z) (ep : endpoint) (w : wire)
           (o_status : N) (o_loc : option str) (o_carried : option str)
 (* auth.NewAuthenticator on a configured root-domain list: it never fails in the code as it is *)
-| CBoot (cfg_domains : list str) (ok : bool).
+| CBoot (cfg_domains : list str) (ok : bool)
+(* a request through the OUTERMOST handler the binary installs (auth.NewAuthenticatorMux): Host
+   header as sent, path kind, the wire request for route paths (request headers such as
+   X-Forwarded-Proto / X-Forwarded-Host vary in the driver; the model ignores them, as the code does) *)
+| COuter (c : config) (server_host req_host : str) (p : outer_path) (now_ns : Z) (w : wire)
+         (o_status : N) (o_loc : option str).
 
 (* ============ the property, as boolean specifications on observations ============ *)
 (* "host equals a configured root domain or is a subdomain of one" (leading dots of the
@@ -210,6 +215,27 @@ Definition serve_mismatch (c : config) (now_ns : Z) (ep : endpoint) (w : wire)
     | OErr _ | OPage _ => is_nil_opt o_loc && is_nil_opt o_carried
     end).
 
+(* the outermost handler: a route path under the configured host is the authenticator's answer;
+   everything else must not redirect at all, and whatever 3xx is observed anywhere must name an
+   in-domain host under the RFC reading of the Location written *)
+Definition outer_routed (sh rh : str) (p : outer_path) : option endpoint :=
+  match p with OpRoute ep => if str_eqb rh sh then Some ep else None | _ => None end.
+
+Definition outer_mismatch (c : config) (sh rh : str) (p : outer_path) (now_ns : Z) (w : wire)
+           (o_status : N) (o_loc : option str) : bool :=
+  match outer_routed sh rh p with
+  | Some ep => serve_mismatch c now_ns ep w o_status o_loc None
+  | None => negb (N.eqb (status_of (outer_serve c sh rh p now_ns w)) o_status && is_nil_opt o_loc)
+  end.
+
+Definition outer_holds (c : config) (sh rh : str) (p : outer_path) (now_ns : Z) (w : wire)
+           (o_status : N) (o_loc : option str) : bool :=
+  if negb (is_3xx o_status) then true
+  else match outer_routed sh rh p with
+       | Some ep => serve_holds c now_ns ep w o_status o_loc None
+       | None => match o_loc with Some loc => rfc_in_domain loc (c_domains c) | None => false end
+       end.
+
 Definition judge (cs : case) : N :=
   match cs with
   | CParse uri o_ok o_scheme o_host o_hostname o_user o_string =>
@@ -229,6 +255,8 @@ Definition judge (cs : case) : N :=
             serve_mismatch c now_hi ep w o_status o_loc o_carried)
            (serve_holds c now_lo ep w o_status o_loc o_carried) 0
   | CBoot _ ok => code (negb ok) true 0
+  | COuter c sh rh p now_ns w o_status o_loc =>
+      code (outer_mismatch c sh rh p now_ns w o_status o_loc) (outer_holds c sh rh p now_ns w o_status o_loc) 0
   end.
 
 (* ============ classes for the evidence histogram ============ *)
@@ -279,4 +307,8 @@ Definition classify (cs : case) : N :=
   | CServe c _ ep w o_status o_loc o_carried => serve_class ep w o_status o_loc o_carried
   | CServeT c _ _ ep w o_status o_loc o_carried => 1000 + serve_class ep w o_status o_loc o_carried
   | CBoot _ ok => if ok then 31 else 30
+  | COuter c sh rh p _ w o_status o_loc =>
+      2000 + (match p with OpPing => 0 | OpRobots => 100 | OpRoute ep => 200 + 10 * ep_num ep end)
+           + (if str_eqb rh sh then 0 else 500)
+           + (match o_loc with Some _ => 3 | None => if N.eqb o_status 200 then 2 else if N.eqb o_status 421 then 0 else 1 end)
   end.
